@@ -4,7 +4,8 @@ from .. import env, coq, gen, apigen, dyn
 from . import c16_util as U
 
 RULE = ("APIs: apis.conventional extended with a recursive tree (nested, mutually recursive part, map entry, nested enum), a type "
-        "shared by two RPCs, a nested type of one request named by another request, resource references (type / child_type, "
+        "shared by two RPCs, a nested type of one request named by another request, target files that hold only top-level enums "
+        "(one named from another file), only messages, only a service, resource references (type / child_type, "
         "message-level and file-level), a second service and a third file that vanish, LRO and paged RPCs, streaming RPCs; a "
         "compute-style API with an extended-operation polling service (also with a polling chain that loops); an API using its own "
         "dependency package; the former DESIGN 9 no. 4 counterexample and the internal-polling one (corpus/C16, run first). Configurations: for each API subsets of RPC selectors (singletons, one "
@@ -94,13 +95,13 @@ def other_version(pkg):
     return ".".join(parts)
 
 
-def configs_for(r, req, n_subsets, invalid=True):
+def configs_for(r, req, n_subsets, invalid=True, first=()):
     """[(label, settings list, intent)] — intent in valid / unknown / other_version / dup / prefix / none."""
     pkg = U.target_package(req)
     mbs = U.methods_by_service(req)
     allm = [f"{s}.{m}" for s, ms in mbs for m in ms]
     out = []
-    for sub in U.pick_subsets(r, mbs, n_subsets):
+    for sub in U.pick_subsets(r, mbs, n_subsets + len(first), first=first):
         for internal in (False, True):
             out.append((f"sel={len(sub)}/{len(allm)}#{env.canon_hash(sorted(sub))[:4]} internal={internal}",
                         [{"version": pkg, "methods": sub, "internal": internal}], "valid"))
@@ -130,15 +131,19 @@ def build_apis(ctx, n_random):
     except apigen.Invalid as e:
         ctx.features["invalid-candidate"] += 1
         ctx.notes["dep_package_invalid"] = str(e)[:300]
-    for i in range(n_random):
+    for i in range(-1, n_random):
+        # i = -1: the multi-file API with an enums-only, a messages-only and a service-only target file, always present
         r = env.rng("C16-api", i)
         try:
-            api, knobs = U.conventional_plus(r)
+            api, knobs = U.conventional_plus(r, file_shapes=(i == -1))
             req = api.request()
-        except apigen.Invalid:
+        except apigen.Invalid as e:
             ctx.features["invalid-candidate"] += 1
+            if i == -1:
+                ctx.oblige("the multi-file API (enums-only / messages-only / service-only target files) is a valid input", False, str(e)[:300], "T1")
             continue
-        out.append({"name": f"conv{i}", "req": req, "transport": "grpc", "knobs": knobs, "e2e": True})
+        out.append({"name": "multifile" if i == -1 else f"conv{i}", "req": req, "transport": "grpc", "knobs": knobs, "e2e": True,
+                    "first": api.info.get("c16_subsets", [])})
     return out
 
 
@@ -162,7 +167,7 @@ def run_schema(ctx, items):
     for k, it in enumerate(items):
         by_api.setdefault(id(it["api"]), []).append(k)
     groups = list(by_api.values())
-    batches = [[g] for g in groups]
+    batches = [[g[i:i + 9]] for g in groups for i in range(0, len(g), 9)]   # at most 9 cases of one API per cases file
     jobs = []
     for bi, batch in enumerate(batches):
         shared, defs, checks = {}, [], []
@@ -681,7 +686,7 @@ def run(ctx):
     schema_items, libs = [], []
     for ai, api in enumerate(apis_):
         r = env.rng("C16-cfg", ai)
-        cfgs = configs_for(r, api["req"], ctx.n(4, 12))
+        cfgs = configs_for(r, api["req"], ctx.n(4, 12), first=api.get("first", ()))
         for label, settings, intent in cfgs:
             schema_items.append({"api": api, "label": label, "settings": settings, "intent": intent})
         if api["e2e"]:
@@ -691,6 +696,7 @@ def run(ctx):
             nv, nb = ctx.n(4, 8), ctx.n(1, 2)
             if api["name"] in ("witness", "extended", "extended-cyclic"):
                 nv = 4
+            nv += 2 * len(api.get("first", ()))
             for label, settings, intent in valid[:nv] + r.sample(bad, min(nb, len(bad))):
                 libs.append({"api": api, "label": label, "settings": settings, "intent": intent})
     # corpus first: minimised witnesses of the known findings (and anything triage added)
@@ -754,7 +760,7 @@ def search(ctx, broken):
     items, libs = [], []
     for ai, api in enumerate(apis_):
         r = env.rng("C16-search", ai)
-        cfgs = configs_for(r, api["req"], 10)
+        cfgs = configs_for(r, api["req"], 10, first=api.get("first", ()))
         for label, settings, intent in cfgs:
             items.append({"api": api, "label": label, "settings": settings, "intent": intent})
         if api["e2e"] and ai < 8:
